@@ -288,6 +288,26 @@ def gen_dump_history(rng, idx, quick):
         if rng.random() < 0.08:
             mx = rng.choice([0, 1, 2, 3, 4, 5])
         ops.append(("dump", mx))
+    # the rule sets differ between writes: the modes of the three items change (roll-outs audit ->
+    # enforce, roll-backs enforce -> audit, disabling), which file survives is judged by AGE
+    modes = ["none", "disabled", "audit", "enforce"]
+    pat = rng.choice(["const", "rollback", "rollback", "forward", "random", "random"])
+    cur_m = [rng.choice(modes) for _ in range(3)]
+    if pat == "rollback":
+        cur_m[0] = "enforce"
+    elif pat == "forward":
+        cur_m[0] = "audit"
+    switch_at = rng.randint(1, max(1, len(ops) - 2))
+    ops2 = []
+    for i, o in enumerate(ops):
+        if pat == "rollback" and i == switch_at:
+            cur_m[0] = rng.choice(["audit", "disabled"])
+        elif pat == "forward" and i == switch_at:
+            cur_m[0] = "enforce"
+        elif pat == "random" and rng.random() < 0.35:
+            cur_m[rng.randrange(3)] = rng.choice(modes)
+        ops2.append(("dump", o[1], tuple(cur_m)))
+    ops = ops2
     extra = gen_extras(rng, "dump", [], 0.3, 0.2)
     extra = [e for e in extra if e[1] not in {nm for nm, _ in pre}]
     return {"kind": "dump", "id": idx, "pre": pre, "ops": ops, "scenario": scen,
@@ -409,7 +429,7 @@ def dump_script(h, root):
     lines += extra_lines(h)
     lines.append("ls")
     for o in h["ops"]:
-        lines.append("dump %d" % o[1])
+        lines.append("dump %d %s" % (o[1], " ".join(o[2])))
     return lines
 
 
@@ -717,7 +737,15 @@ def prop_ev(h, listing0, results, check_cap=True):
 
 def prop_dump(h, listing0, results):
     prev = dict(listing0)
-    for o, d in zip(h["ops"], results):
+    # age of a dump: pre-populated dumps with a time-stamped name are older than every dump written in
+    # the history, among themselves in the order of their stamps; a dump written at step i has age i.
+    # (look-alike foreign names carry no age: for them only the name order is judged)
+    born = {}
+    for nm in sorted(listing0):
+        m = re.search(r"(\d{4}-\d\d-\d\dT[\d.]+-\d+)\.json$", nm)
+        if DUMP_RE.match(nm) and m:
+            born[nm] = (0, m.group(1))
+    for stepi, (o, d) in enumerate(zip(h["ops"], results)):
         mx = o[1]
         dumps_b = {f for f in prev if DUMP_RE.match(f)}
         dumps_a = {f for f in d if DUMP_RE.match(f)}
@@ -726,17 +754,84 @@ def prop_dump(h, listing0, results):
         new = dumps_a - dumps_b
         if len(new) != 1 and not (h.get("lf") and len(new) == 0):
             return "write_all did not leave exactly one new dump (%r)" % sorted(new)
+        for f in new:
+            born[f] = (1, "%09d" % stepi)
         removed = dumps_b - dumps_a
         kept = dumps_a & dumps_b
         for r in removed:
             for k in kept:
-                if k < r:
+                if r in born and k in born:
+                    if born[k] < born[r]:
+                        return "removed dump %r (newer) but kept the older %r: not the oldest removed first" % (r, k)
+                elif k < r:
                     return "removed dump %r but kept the older %r" % (r, k)
         for f, sz in prev.items():
             if f not in dumps_b and d.get(f) != sz:
                 return "write_all changed %r, which is not a rule dump" % f
         prev = dict(d)
     return None
+
+
+# ------------------------------------------------------------------------------------------
+# restart leg: the agent's real start-up path (service::start_service -> setup_loggers -> start banner)
+# ------------------------------------------------------------------------------------------
+def gen_restart_history(rng, idx, names, ms, mc):
+    """directory left by earlier runs of the agent (its two real loggers, fixed settings) at / near /
+    above the file-count limit; several process restarts in a row, a few lines after each"""
+    pre = []
+    scen = rng.choice(["at_limit", "at_limit", "at_limit", "one_below", "above", "empty", "at_limit_big_current"])
+    for n in names:
+        k = {"at_limit": mc - 1, "at_limit_big_current": mc - 1, "one_below": mc - 2, "above": mc + rng.randint(0, 2),
+             "empty": 0}[scen]
+        if rng.random() < 0.2:
+            k = rng.randint(0, mc - 1)
+        for i in range(max(0, k)):
+            pre.append((set_ext_log(n + "." + old_ts(i + 40 * names.index(n)) + ".log"), rng.randint(1, 3000)))
+        if scen != "empty" or rng.random() < 0.3:
+            if scen == "at_limit_big_current" and n == names[0]:
+                sz = ms + rng.choice([0, 0, 7])
+            else:
+                sz = rng.choice([0, 1, rng.randint(1, 2000), rng.randint(1, 2000)])
+            pre.append((set_ext_log(n), sz))
+    runs = []
+    for _ in range(rng.randint(3, 6)):
+        lines = [("a" if rng.random() < 0.6 else "c", rng.choice([0, 1, rng.randint(0, 300)])) for _ in range(rng.randint(0, 3))]
+        runs.append(lines)
+    return {"kind": "restart", "id": idx, "names": names, "pre": pre, "runs": runs, "scenario": scen,
+            "cfg_init": {n: [n, ms, mc] for n in names}}
+
+
+def run_restart_history(h, exe, logdir):
+    """returns the history in the standard log-history form (ops 'w'/'m') plus the observed listings"""
+    import shutil
+    shutil.rmtree(logdir, ignore_errors=True)
+    os.makedirs(logdir)
+    for nm, sz in h["pre"]:
+        with open(os.path.join(logdir, nm), "wb") as f:
+            f.write(b"p" * sz)
+    agent, conn = h["names"]
+    cur_a = set_ext_log(agent)
+    prev = dict(h["pre"])
+    ops, rs = [], []
+    for lines in h["runs"]:
+        script = ["start"] + ["%s %d" % l for l in lines]
+        out = [x[6:] for x in vplib.run_lines(exe, script, timeout=120) if x.startswith("@@C19 ")]
+        assert len(out) == len(script), (len(out), len(script))
+        for k, x in enumerate(out):
+            d = {nm: sz for nm, sz, isf in json.loads(x)["ls"] if isf}
+            if k == 0:
+                # the start banner: its length is whatever the agent printed (not compared); a restart
+                # itself must not touch the directory, so everything else is attributed to that one line
+                new_arch = [f for f in d if f not in prev and f != cur_a and f.startswith(agent)]
+                w = d.get(cur_a, 0) if (new_arch or cur_a not in prev) else d.get(cur_a, 0) - prev[cur_a]
+                ops.append(("m", agent, [max(1, w) - 1]))
+            else:
+                ops.append(("w", agent if lines[k - 1][0] == "a" else conn, lines[k - 1][1]))
+            rs.append(d)
+            prev = d
+    h2 = dict(h)
+    h2.update({"kind": "log", "ops": ops, "fault": "restart", "rf": [], "extra": [], "lf": False})
+    return h2, (dict(h["pre"]), rs, [])
 
 
 # ------------------------------------------------------------------------------------------
@@ -817,6 +912,33 @@ def run(ctx):
                           "ops": [op for _ in range(min(want, 6) + 4) for op in (("push", rng.choice([1, 2, 5])), ("tick",))]})
                 evs.append(h)
     impl_log = [parse_log_result(h, res) for h, res in zip(logs, run_batch(logs, log_script))]
+    # restart leg: the real start-up path of the service, one process per restart, on directories at /
+    # near the limit; converted into ordinary log histories (model: the restart is no operation, the
+    # start banner is one write of the agent logger)
+    n_restart = 25 if ctx.quick else 100
+    if os.path.exists("/etc/azure/proxy-agent.json"):
+        ctx.notes.append("restart leg skipped: /etc/azure/proxy-agent.json exists and would be read instead")
+    else:
+        import shutil
+        sd = os.path.join(ctx.scratch, "startexe")
+        os.makedirs(sd)
+        exe = os.path.join(sd, "c19_rules")
+        try:
+            os.link(bins["c19_rules"], exe)
+        except OSError:
+            shutil.copy(bins["c19_rules"], exe)
+        logdir = os.path.join(ctx.scratch, "startlogs")
+        json.dump({"logFolder": logdir, "eventFolder": os.path.join(sd, "events"), "latchKeyFolder": os.path.join(sd, "keys"),
+                   "monitorIntervalInSeconds": 60, "pollKeyStatusIntervalInSeconds": 15, "hostGAPluginSupport": 2,
+                   "ebpfProgramName": "ebpf_cgroup.o"}, open(os.path.join(sd, "proxy-agent.json"), "w"))
+        ms_real = int(re.search(r"Definition max_log_file_size : N := (\d+)\.", consts).group(1))
+        mc_real = int(re.search(r"Definition max_log_file_count : N := (\d+)\.", consts).group(1))
+        for i in range(n_restart):
+            h = gen_restart_history(rng, 20000 + i, [real["agent_log_file_name"], real["agent_connection_log_file_name"]], ms_real, mc_real)
+            h2, res = run_restart_history(h, exe, logdir)
+            logs.append(h2)
+            impl_log.append(res)
+        shutil.rmtree(logdir, ignore_errors=True)
     impl_ev = [parse_ev_result(h, res) for h, res in zip(evs, run_batch(evs, ev_script))]
     # event_logger::stop() is process-global: one process per history
     for h in stops:
@@ -914,7 +1036,7 @@ def run(ctx):
 
     for h, (l0, rs, errs), e, res in zip(logs, impl_log, exp_log, res_log):
         case = {"kind": "log", "names": h["names"], "cfg_init": h["cfg_init"], "pre": h["pre"], "ops": h["ops"], "scenario": h["scenario"],
-                "fault": h.get("fault"), "extra": h.get("extra")}
+                "fault": h.get("fault"), "extra": h.get("extra"), "runs": h.get("runs")}
         real = [r for r in rs if r is not None]
         steps += len(real)
         if errs:
@@ -994,6 +1116,8 @@ def run(ctx):
         ],
         "input_distribution": {
             "log_histories": len(logs), "event_histories": len(evs), "dump_histories": len(dumps),
+            "log_histories_restarts_through_service_start_up": sum(1 for h in logs if h.get("fault") == "restart"),
+            "restarts_in_those": sum(len(h["runs"]) for h in logs if h.get("fault") == "restart"),
             "log_histories_archive_name_too_long": sum(1 for h in logs if h.get("fault") == "longname"),
             "log_histories_directory_read_only(setpriv)": sum(1 for h in logs if h.get("fault") == "readonly"),
             "event_histories_with_stop": sum(1 for h in evs if h.get("stop")),
